@@ -92,11 +92,24 @@ def _reachable(nS, nA, T, absorbing, s0):
     return seen
 
 
-def gen_pomdp(rng, abs_kind=None, smax=4, amax=3, omax=3, smin=1, amin=1, omin=1):
+def _row_on(rng, n, allowed, kmax=3):
+    """distribution over range(n) on the grid k/8 supported inside `allowed`"""
+    k = rng.randint(1, min(kmax, len(allowed)))
+    return _row(rng, n, support=rng.sample(list(allowed), k))
+
+
+def gen_pomdp(rng, abs_kind=None, smax=4, amax=3, omax=3, smin=1, amin=1, omin=1, unreach=False):
+    """unreach: the POMDP is given to msdm with EXPLICIT _state_list/_action_list and has at least one state
+    that cannot be reached from the initial distribution (with real dynamics and rewards of its own): the
+    evaluator's table is checked at every (node, state) pair, reachable or not"""
     if abs_kind is None:
         abs_kind = rng.choice(["none", "none", "benign", "paying", "paying", "paying"])
     for attempt in range(200):
-        nS = rng.randint(max(smin, 2 if abs_kind != "none" else 1), smax)
+        nS = rng.randint(max(smin, 2 if (abs_kind != "none" or unreach) else 1), smax)
+        live_set = list(range(nS))
+        if unreach:
+            U = rng.sample(range(nS), rng.randint(1, nS - 1))
+            live_set = [x for x in range(nS) if x not in U]
         nA = rng.randint(amin, amax)
         nO = rng.randint(omin, omax)
         absorbing = [False] * nS
@@ -115,7 +128,7 @@ def gen_pomdp(rng, abs_kind=None, smax=4, amax=3, omax=3, smin=1, amin=1, omin=1
                     if paying_selfloop:
                         Rw[s][a][s] = F(rng.choice([-4, -3, -2, -1, 1, 2, 3, 4]))
                     continue
-                T[s][a] = _row(rng, nS)
+                T[s][a] = _row_on(rng, nS, live_set) if (unreach and s in live_set) else _row(rng, nS)
                 for t in range(nS):
                     if T[s][a][t] > 0 and rng.random() < .8:
                         Rw[s][a][t] = F(rng.randint(-16, 16), 4) if rng.random() < .3 else F(rng.randint(-4, 4))
@@ -124,8 +137,11 @@ def gen_pomdp(rng, abs_kind=None, smax=4, amax=3, omax=3, smin=1, amin=1, omin=1
                 if all(Rw[s][a][t] == 0 for a in range(nA) for t in range(nS)) and all(T[s][a][s] == 1 for a in range(nA)):
                     Rw[s][0][s] = F(2)
         Ob = [[_row(rng, nO) for _ in range(nS)] for _ in range(nA)]
-        s0 = _row(rng, nS)
-        if _reachable(nS, nA, T, absorbing, s0) != set(range(nS)):
+        s0 = _row_on(rng, nS, live_set) if unreach else _row(rng, nS)
+        if unreach:
+            if _reachable(nS, nA, T, absorbing, s0) == set(range(nS)):
+                continue
+        elif _reachable(nS, nA, T, absorbing, s0) != set(range(nS)):
             if attempt < 150:
                 continue
             s0 = _row(rng, nS, support=list(range(nS)))
@@ -136,7 +152,9 @@ def gen_pomdp(rng, abs_kind=None, smax=4, amax=3, omax=3, smin=1, amin=1, omin=1
         gamma = rng.choice(GAMMAS)
         st = lambda x: [st(y) for y in x] if isinstance(x, list) else str(x)
         return {"nS": nS, "nA": nA, "nO": nO, "T": st(T), "Rw": st(Rw), "Ob": st(Ob),
-                "absorbing": absorbing, "s0": st(s0), "gamma": gamma, "abs_kind": abs_kind}
+                "absorbing": absorbing, "s0": st(s0), "gamma": gamma, "abs_kind": abs_kind,
+                "explicit_lists": bool(unreach),
+                "unreachable": sorted(set(range(nS)) - _reachable(nS, nA, T, absorbing, s0))}
     raise RuntimeError("gen_pomdp: no case")
 
 
@@ -271,6 +289,10 @@ def gen_cases(rng, tier):
             fc = gen_fsc(rng, pc["nA"], pc["nO"], om3=True, style=rng.choice(["generic", "generic", "onehot_init", "det"]))
             if fc["N"] == 1:      # one node: every broadcast is the same
                 fc = gen_fsc(rng, pc["nA"], pc["nO"], om3=True, style="generic")
+        elif i % 4 == 1:
+            # explicit state list with states unreachable from the initial distribution
+            pc = gen_pomdp(rng, unreach=True)
+            fc = gen_fsc(rng, pc["nA"], pc["nO"])
         else:
             pc = gen_pomdp(rng)
             fc = gen_fsc(rng, pc["nA"], pc["nO"])
@@ -279,13 +301,13 @@ def gen_cases(rng, tier):
     n_bpi = 9 if tier == "quick" else 90
     for i in range(n_bpi):
         kind = ["none", "none", "benign", "paying"][i % 4] if tier == "quick" else rng.choice(["none", "none", "benign", "paying"])
-        pc = gen_pomdp(rng, abs_kind=kind, smax=3, amax=2, omax=2, smin=2, amin=2, omin=1 + (i % 4 != 3))
+        pc = gen_pomdp(rng, abs_kind=kind, smax=3, amax=2, omax=2, smin=2, amin=2, omin=1 + (i % 4 != 3), unreach=(i % 3 == 2))
         cases.append({"kind": "bpi", "pomdp": pc, "nodes": 1 + i % 3, "seed": 1 + i % 3 if tier == "quick" else rng.randint(1, 9),
                       "iterations": rng.randint(1, 4) if tier == "quick" else rng.randint(1, 20)})
     n_ga = 6 if tier == "quick" else 60
     for i in range(n_ga):
         kind = ["none", "benign", "paying"][i % 3]
-        pc = gen_pomdp(rng, abs_kind=kind, smax=3, amax=2, omax=2, smin=2, amin=2, omin=2)
+        pc = gen_pomdp(rng, abs_kind=kind, smax=3, amax=2, omax=2, smin=2, amin=2, omin=2, unreach=(i % 4 == 1))
         cases.append({"kind": "ga", "pomdp": pc, "nodes": 1 + i % 3, "seed": 1 + i % 3 if tier == "quick" else rng.randint(1, 9),
                       "iterations": rng.randint(2, 8) if tier == "quick" else rng.randint(1, 40),
                       "dtype": "float32" if i % 6 == 5 else "float64"})
@@ -367,6 +389,7 @@ def run(ctx):
             report("C09:harness:index-lists-unexpected", {"case": case, "lists": {k: res.get(k) for k in ("state_list", "action_list", "observation_list")}}, found=False)
             continue
         feats["abs_" + pc["abs_kind"]] += 1
+        feats["explicit_lists_with_unreachable_states"] = feats.get("explicit_lists_with_unreachable_states", 0) + int(bool(pc.get("unreachable")))
         pt = pomdp_term(pc)
         if case["kind"] == "eval":
             fc = case["fsc"]
@@ -593,7 +616,8 @@ def run(ctx):
         "distinct_nontrivial": len(distinct),
         "rule": "POMDPs: 1..4 states, 1..3 actions, 1..3 observations, T/O/initial rows on k/8 with <=3 support, rewards integers or quarters, "
                 "gamma in {1/2,3/4,9/10}, absorbing kind none / benign (zero-reward self-loop) / paying (non-zero reward or non-self-loop out of a "
-                "terminal state), every state reachable; controllers: 1..3 nodes, rows on k/8, styles generic (non-degenerate initial node "
+                "terminal state); state lists inferred with every state reachable, or EXPLICIT _state_list/_action_list with >= 1 state unreachable "
+                "from the initial distribution (own dynamics and rewards; the table is checked at every (node, state) pair); controllers: 1..3 nodes, rows on k/8, styles generic (non-degenerate initial node "
                 "distribution) / onehot_init / shared action row / deterministic; learners: BPI seeds 1..3 (seed 0 is replaced by a random seed in "
                 "msdm, see C13), 1..3 initial nodes, few iterations, gradient ascent float64 and float32; distinct = structural hash of "
                 "(pomdp, controller) resp. (pomdp, learner configuration); non-trivial = at least one non-absorbing state",
